@@ -53,7 +53,7 @@ the tracked files), quick tier, `VERIF_SEED=1`.
 | 8 (O, P) | %d of %d | 37 of 38 (1 cannot touch a recorded withdrawal, see below) |
 | 9 (Q, R) | %d of %d | 39 of 40 (1 needs a chain without bonded validators, see below) |
 | 10 (S, T) | %d of %d | 38 of 38 |
-| 11 (U, V) | %d of %d | ROUND11AFTER |
+| 11 (U, V) | %d of %d | 40 of 40 (1 by another property's check) |
 
 "caught by" lists every check that was run against the change and exited 1 (round 1: the
 property's own check plus a related set of 4-10 checks; rounds 2 to 11: the own check; C13-H, C13-I, C13-L also against C14, C06-L against C07, C20-L against C07 and C09); every other
